@@ -489,5 +489,8 @@ class db_add:
                 and (isinstance(obj, TableGroup) or same_list(self.table_groups, old(self.table_groups)))
                 and (isinstance(obj, StickyNote) or same_list(self.sticky_notes, old(self.sticky_notes))))
 
+    def ensures_project_kept(self, obj, result):
+        return isinstance(obj, Project) or self.project is old(self.project)
+
     def ensures_inv(self, obj, result):
         return db_inv(self)
